@@ -36,6 +36,7 @@ func (rs reclaimsim) Gen(prop, tier string, ts *sim.Tapes) *Case {
 	cfg := work.GenConfig(ts.Get("cfg"))
 	cfg.StrictMode, cfg.Mlock = false, false
 	cfg.InitialMmapSize = 64 << 20 // readers are held across writers on one task
+	cfg.NoStatistics = ts.Get("knobs").Chance(1, 4) // the statistics then read zero: the file-growth oracles decide
 	t := ts.Get("reclaim")
 	ex := reclaimExtra{Pattern: []string{"none", "long", "staggered", "burst"}[t.Pick(3, 2, 3, 2)]}
 	ex.Txs = 20 + t.Intn(60)
@@ -428,6 +429,63 @@ func (rs reclaimsim) Run(c *Case, dir string) *Outcome {
 		}
 		prev = cur
 	}
+	// tail phase: every reader is closed, then a run of small overwrite transactions. Whatever was withheld for
+	// the readers is reusable by the next writer at the latest, so the file stops growing: this oracle does not
+	// depend on the statistics (which read zero under NoStatistics).
+	if len(viol) == 0 && !multiPageSeen && ex.VLen <= 40 {
+		for sl := range readers {
+			closeReader(sl)
+		}
+		var h3 uint64
+		tailOK := true
+		for k := 0; k < 16 && tailOK; k++ {
+			Tick()
+			err := e.DB.Update(func(tx *bolt.Tx) error {
+				b := tx.Bucket([]byte("b"))
+				for j := 0; j < ex.PerTx; j++ {
+					tag++
+					if err := b.Put([]byte(fmt.Sprintf("key-%05d", t.Intn(ex.Keys))), work.MkVal(ex.VLen, tag)); err != nil {
+						return err
+					}
+				}
+				return nil
+			})
+			if err != nil {
+				fail("update-error", "%v", err)
+				tailOK = false
+				break
+			}
+			cur := decode()
+			if cur == nil || cur.Fatal != "" {
+				tailOK = false
+				break
+			}
+			if cur.Shape.OverflowPages > 0 || len(cur.FreelistPages) > 1 {
+				tailOK = false // a multi-page allocation appeared: fragmentation may legitimately force growth
+				break
+			}
+			rel := 0
+			cu := cur.UsedSet()
+			for pg := range prev.UsedSet() {
+				if !cu[pg] {
+					rel++
+				}
+			}
+			if rel > maxReleased {
+				maxReleased = rel
+			}
+			prev = cur
+			if k == 3 {
+				h3 = cur.Meta.Pgid
+			}
+		}
+		if tailOK && h3 > 0 {
+			out.probe("tail-growth-bound-checked", 1)
+			if bound := h3 + uint64(2*maxReleased+2*maxFL+8); prev.Meta.Pgid > bound {
+				fail("file-grows-after-readers-closed", "all readers closed, then 16 small overwrite transactions: the high-water mark went from %d (after the 4th) to %d (after the 16th) although a transaction releases at most %d pages: freed space is not being reused (bound %d)", h3, prev.Meta.Pgid, maxReleased, bound)
+			}
+		}
+	}
 	// steady overwrite workload: the file must not keep growing
 	if len(viol) == 0 && ex.Steady && !multiPageSeen && ex.Txs >= 50 {
 		bound := maxUsed + 2*maxReleased + 2*maxFL + 8
@@ -510,6 +568,6 @@ func (rs reclaimsim) Shrinks(c *Case) []*Case {
 func init() {
 	register(&Info{Prop: "C10", Engine: reclaimsim{}, Level: "exploration", QuickS: 45, ThoroughS: 600,
 		RealStub: "real: all of bbolt (tag verif), real file + mmap; injected: I/O errors in some commits (through the I/O hooks); observed: every pwrite (pages of open readers' versions must not be written); oracle inputs come from the independent decoder (page sets per version); simulated: map iteration order / span choice",
-		Rule:     "one evaluation = one seeded overwrite workload of 20-200 write transactions on one bucket with a reader pattern between transactions (none / one long-lived / staggered open+close / bursts closing at once), optional reopenings, abandoned transactions (user Rollback / failing body) and physically rolled-back ones (a panicking Update body; an injected I/O failure - EIO, short write, ENOSPC - at a tape-chosen I/O call of the commit; a size-limit failure in the spill phase after free pages were used up), after each of which free + pending space must be what it was before, both backends, freelist-sync on/off. After every commit made with no reader open, Stats().PendingPageN must not exceed the number of pages of the previous version that the new version no longer uses (computed by dec/); the same bound must hold from the first commit after the last reader closed; no pwrite may touch a page of an open reader's version; for steady single-page-node workloads of >= 50 transactions the high-water mark must stay <= max live pages + 2 x largest per-transaction release + 2 x freelist pages + 8. distinct = distinct (final hwm, live pages, released, pattern, sizes)",
+		Rule:     "one evaluation = one seeded overwrite workload of 20-200 write transactions on one bucket with a reader pattern between transactions (none / one long-lived / staggered open+close / bursts closing at once), optional reopenings, abandoned transactions (user Rollback / failing body) and physically rolled-back ones (a panicking Update body; an injected I/O failure - EIO, short write, ENOSPC - at a tape-chosen I/O call of the commit; a size-limit failure in the spill phase after free pages were used up), after each of which free + pending space must be what it was before, both backends, freelist-sync on/off. After every commit made with no reader open, Stats().PendingPageN must not exceed the number of pages of the previous version that the new version no longer uses (computed by dec/); the same bound must hold from the first commit after the last reader closed; no pwrite may touch a page of an open reader's version; after the workload every reader is closed and 16 small overwrite transactions follow, during which (single-page nodes only) the high-water mark may rise by at most 2 x largest release + 2 x freelist pages + 8 between the 4th and the 16th - an oracle that does not read the statistics, which are switched off (NoStatistics) in a quarter of the runs; for steady single-page-node workloads of >= 50 transactions the high-water mark must stay <= max live pages + 2 x largest per-transaction release + 2 x freelist pages + 8. distinct = distinct (final hwm, live pages, released, pattern, sizes)",
 		Assume:   []string{"single task: reader open/close events happen between write transactions (the concurrent form is exercised by the C02 arm)", "the growth bound is only asserted when no multi-page node or multi-page freelist ever appeared (fragmentation could otherwise legitimately force growth)"}})
 }
